@@ -32,6 +32,8 @@ def generate(seed, stratum, tier):
     kw.update({'fx_rate': rng.choice([0.0, 0.3]), 'fx_ops': ('post_fifo', 'post_lifo', 'defer', 'recall', 'scribble')})
   if host == 'queued':
     ops, weights = ('ev', 'post_fifo', 'post_lifo', 'rtc', 'circuit', 'defer', 'recall', 'read'), (5, 2, 2, 4, 1, 1, 1, 1)
+  if host != 'instrumented' and rng.random() < 0.3:
+    ops, weights = tuple(ops) + ('clear_spy', 'clear_trace'), tuple(weights or (1,)) + (0.7, 0.3)
   sc = cc.gen_chart_scenario(rng, combos=[(host, 'closure-spied')], spec_kw=kw, ops=ops, weights=weights, nops=(4, 30), flags=False)
   if rng.random() < 0.3:
     sc['rings'] = {'spy': 40}
